@@ -314,13 +314,8 @@ def check_cons(cons: Dict[str, Any], d, cls: type, ctx: Ctx) -> List[str]:
         if "max_items" in cons and len(d) > cons["max_items"]:
             msgs.append(ctx.msg("max_items", cons["max_items"], d))
         if cons.get("unique"):
+            # JSON equality (JSON Schema uniqueItems): true / false are not the numbers 1 / 0, 1 == 1.0
             jk = {_json_eq_key(x) for x in d}
-            try:
-                pk = {_py_eq_key(x) for x in d}
-            except TypeError:
-                raise Unspecified("unhashable under uniqueItems")
-            if len(jk) != len(pk):
-                raise Unspecified("uniqueItems over values equal in Python but distinct in JSON")
             if len(jk) != len(d):
                 msgs.append(ctx.msg("unique_items", None, d))
     elif cls is dict:
